@@ -5,7 +5,7 @@ import numpy as np
 from hypothesis import strategies as st
 
 from vlib import gens
-from vlib.core import Prop, Sub, Violation, calling, check
+from vlib.core import unchanged, Prop, Sub, Violation, calling, check
 from vlib.oracles import _linprog, lp_dist
 from vlib.systems import Sys, matrix_system, target_rows
 
@@ -90,7 +90,8 @@ def body_adaptive(case):
         with calling("fit_adaptive", allow=(RuntimeError,)):
             if case["entry"] == "estimator":
                 est = sv.make_estimator()
-                X, scales, Bp = est.fit_adaptive(B, **kw)
+                with unchanged("adaptive", estimator=est):
+                    X, scales, Bp = est.fit_adaptive(B, **kw)
             else:
                 from dreye.api.optimize.lsq_linear import lsq_linear_adaptive
 
